@@ -583,12 +583,14 @@ def history_seeds(tier, seed):
 
 
 def units(tier, seed, label):
+    if label == 'PY':  # the pure-Python configuration runs the quick-sized universe
+        tier = 'quick'
     quick = tier == 'quick'
     us = []
     seeds = history_seeds(tier, seed)
     for sd in seeds:
         us.append(('H', sd, 8, tier, True))     # to the fixed point of the abstract state graph
-    for sd in [x for x in seeds if x['chain'] in ('shz', 's1z') and not x.get('unbunched')]:
+    for sd in [x for x in seeds if x['chain'] in ('shz', 's1z') and x['L'] <= 4 and not x.get('unbunched')]:
         us.append(('H', sd, 2 if quick else 3, tier, False))  # every history, no merging of states
     chains = list(U.CHAINS)
     for ch in chains:
